@@ -1,102 +1,26 @@
 /-
-  C02GenFmaWrapClosed — the hypothesis `AarSpec` of C02GenFmaWrap.lean (the specification of `bid_add_and_round`) is
-  `Dec.C02GenFmaLow.add_and_round_spec`, binder for binder; with it the theorems of C02GenFmaWrap about the call sites of
-  `bid_add_and_round` in `bid128_ext_fma` hold without hypothesis:
-
-    * `aarSpec`            : `AarSpec`
-    * `case1517_spec'`, `case1517_fma'`  : Cases (15), (16), (17) return the encoding of `fmaD …` and its flags
-    * `arm26_spec'`, `arm26_fma'`, `arm26_fma_swapped'` : the `delta ≤ 1`, opposite-signs arm of Cases (2)–(6), entered in the
-      first pass or after the operand swap, returns the encoding of `fmaD …` and its flags.
+  C02GenFmaWrapClosed — the hypothesis `AarSpec` of C02GenFmaWrap.lean discharged by `Dec.C02GenFmaLow.add_and_round_spec`
+  (C02GenFmaLow.lean), and the block theorems of C02GenFmaWrap without hypothesis: Cases (15)–(17) and the `delta <= 1`,
+  opposite-signs arm of Cases (2)–(6) of `bid128_ext_fma` return the encoding of `fmaD` and `f ||| flags`.
 -/
-import DecProofs.Properties.C02GenFmaLow
 import DecProofs.Properties.C02GenFmaWrap
+import DecProofs.Properties.C02GenFmaLow
 
-namespace Dec.C02GenFmaWrapClosed
-open Dec Dec.Rs Dec.Gen.Code
-open Dec.C02GenCorrection (ofBits modeOf)
-open Dec.C02GenRound (v128 v256)
-open Dec.C02GenFmaSwap (sgnW)
-open Dec.C02GenFmaWrap
+namespace Dec.C02GenFmaWrap
 
-/-- **the specification of `bid_add_and_round` holds** (proved in C02GenFmaLow.lean) -/
-theorem aarSpec : AarSpec :=
-  fun q3 q4 e4 delta p34 z_sign p_sign C3 C4 m b1 b2 b3 b4 f sz sp hzs hps hp34 E he4 hElo hEhi sc hsc hsc2 hC4 hA hB hN =>
-    Dec.C02GenFmaLow.add_and_round_spec q3 q4 e4 delta p34 z_sign p_sign C3 C4 m b1 b2 b3 b4 f sz sp hzs hps hp34 E he4 hElo hEhi
-      sc hsc hsc2 hC4 hA hB hN
+/-- `AarSpec` holds: it is, binder for binder, `add_and_round_spec` -/
+theorem aarSpec : AarSpec := by
+  unfold AarSpec
+  exact Dec.C02GenFmaLow.add_and_round_spec
 
-/-- Cases (15)–(17), block specification, without hypothesis -/
-theorem case1517_spec' (m : RoundingMode) (f : UInt32) (ps zs : Bool) (C3 : U128) (C4 : U256)
-    (q3n q4n : Nat) (e3 e4 : Int) (q3 q4 e4w delta : Int32) (b1 b2 b3 b4 : Bool)
-    (hq3w : q3.toInt = q3n) (hq4w : q4.toInt = q4n)
-    (hq3 : 1 ≤ q3n) (hq3' : q3n ≤ 34) (hc3 : v128 C3 < 10 ^ q3n)
-    (hq4' : q4n ≤ 68) (hc4lo : 0 < v256 C4) (hc4 : v256 C4 < 10 ^ q4n)
-    (he3' : e3 ≤ 6111) (he4 : -12352 ≤ e4)
-    (hew : e4w.toInt = e4) (hdelta : delta.toInt = q4n + e4 - q3n - e3) (hd0 : 0 ≤ delta.toInt) (hd1 : delta.toInt < 2^19)
-    (hcond : cond1517 q3 q4 delta 34 = true) :
-    ∃ lt gt ilt igt : Bool,
-      case1517K q3 q4 e4w delta 34 (sgnW zs) (sgnW ps) C3 C4 m b1 b2 b3 b4 f =
-        .ok (ofBits (encode (addFin (modeOf m) ps (v256 C4) e4 zs (v128 C3) e3 e4).1), lt, gt, ilt, igt,
-             f ||| UInt32.ofNat (addFin (modeOf m) ps (v256 C4) e4 zs (v128 C3) e3 e4).2) :=
-  case1517_spec aarSpec m f ps zs C3 C4 q3n q4n e3 e4 q3 q4 e4w delta b1 b2 b3 b4 hq3w hq4w hq3 hq3' hc3 hq4' hc4lo hc4 he3' he4 hew hdelta hd0 hd1 hcond
+/-- Cases (15)–(17), closed -/
+theorem case1517_fma_closed : type_of% (@case1517_fma aarSpec) := @case1517_fma aarSpec
+/-- the arm, entered in the first pass, closed -/
+theorem arm26_fma_closed : type_of% (@arm26_fma aarSpec) := @arm26_fma aarSpec
+/-- the arm, entered in the second pass (after the swap), closed -/
+theorem arm26_fma_swapped_closed : type_of% (@arm26_fma_swapped aarSpec) := @arm26_fma_swapped aarSpec
+/-- the general forms, closed -/
+theorem case1517_spec_closed : type_of% (@case1517_spec aarSpec) := @case1517_spec aarSpec
+theorem arm26_spec_closed : type_of% (@arm26_spec aarSpec) := @arm26_spec aarSpec
 
-/-- **Cases (15)–(17) against `fmaD`**, without hypothesis -/
-theorem case1517_fma' (m : RoundingMode) (f : UInt32) (s1 s2 s3 : Bool) (c1 c2 : Nat) (e1 e2 : Int)
-    (C3 : U128) (C4 : U256) (q3n q4n : Nat) (e3 : Int) (q3 q4 e4w delta : Int32) (b1 b2 b3 b4 : Bool)
-    (hq3w : q3.toInt = q3n) (hq4w : q4.toInt = q4n)
-    (hq3 : 1 ≤ q3n) (hq3' : q3n ≤ 34) (hc3 : v128 C3 < 10 ^ q3n)
-    (hq4' : q4n ≤ 68) (hprod : v256 C4 = c1 * c2) (hc4lo : 0 < c1 * c2) (hc4 : c1 * c2 < 10 ^ q4n)
-    (he3' : e3 ≤ 6111) (he4 : -12352 ≤ e1 + e2)
-    (hew : e4w.toInt = e1 + e2) (hdelta : delta.toInt = q4n + (e1 + e2) - q3n - e3) (hd0 : 0 ≤ delta.toInt)
-    (hd1 : delta.toInt < 2^19) (hcond : cond1517 q3 q4 delta 34 = true) :
-    ∃ lt gt ilt igt : Bool,
-      case1517K q3 q4 e4w delta 34 (sgnW s3) (sgnW (s1 != s2)) C3 C4 m b1 b2 b3 b4 f =
-        .ok (ofBits (encode (fmaD (modeOf m) false (.fin s1 c1 e1) (.fin s2 c2 e2) (.fin s3 (v128 C3) e3)).1), lt, gt, ilt, igt,
-             f ||| UInt32.ofNat (fmaD (modeOf m) false (.fin s1 c1 e1) (.fin s2 c2 e2) (.fin s3 (v128 C3) e3)).2) :=
-  case1517_fma aarSpec m f s1 s2 s3 c1 c2 e1 e2 C3 C4 q3n q4n e3 q3 q4 e4w delta b1 b2 b3 b4 hq3w hq4w hq3 hq3' hc3 hq4' hprod hc4lo hc4 he3' he4 hew hdelta hd0 hd1 hcond
-
-/-- the cancellation arm (`delta ≤ 1`, opposite signs) of Cases (2)–(6), block specification, without hypothesis -/
-theorem arm26_spec' (m : RoundingMode) (f : UInt32) (ps zs : Bool) (C3 : U128) (C4 : U256)
-    (q3n q4n : Nat) (e3 e4 : Int) (q3 q4 e3w e4w delta : Int32) (b1 b2 b3 b4 : Bool)
-    (hq3w : q3.toInt = q3n) (hq4w : q4.toInt = q4n)
-    (hq3 : 1 ≤ q3n) (hq3' : q3n ≤ 34) (hc3lo : 0 < v128 C3) (hc3 : v128 C3 < 10 ^ q3n)
-    (hq4 : 1 ≤ q4n) (hq4' : q4n ≤ 68) (hc4lo : 0 < v256 C4) (hc4 : v256 C4 < 10 ^ q4n)
-    (he3 : -12352 ≤ e3) (he3' : e3 ≤ 12222) (he4 : -12352 ≤ e4) (he4' : e4 ≤ 12222) (hmin : e3 ≤ 6111 ∨ e4 ≤ 6111)
-    (hew3 : e3w.toInt = e3) (hew : e4w.toInt = e4) (hdelta : delta.toInt = q3n + e3 - q4n - e4)
-    (hd0 : 0 ≤ delta.toInt) (hd1 : delta.toInt ≤ 1) (hsign : ps ≠ zs) :
-    ∃ lt gt ilt igt : Bool,
-      arm26K q3 q4 e3w e4w delta 34 (sgnW zs) (sgnW ps) C3 C4 m b1 b2 b3 b4 f =
-        .ok (ofBits (encode (addFin (modeOf m) ps (v256 C4) e4 zs (v128 C3) e3 (if e4 ≤ e3 then e4 else e3)).1), lt, gt, ilt, igt,
-             f ||| UInt32.ofNat (addFin (modeOf m) ps (v256 C4) e4 zs (v128 C3) e3 (if e4 ≤ e3 then e4 else e3)).2) :=
-  arm26_spec aarSpec m f ps zs C3 C4 q3n q4n e3 e4 q3 q4 e3w e4w delta b1 b2 b3 b4 hq3w hq4w hq3 hq3' hc3lo hc3 hq4 hq4' hc4lo hc4 he3 he3' he4 he4' hmin hew3 hew hdelta hd0 hd1 hsign
-
-/-- **the cancellation arm of Cases (2)–(6) against `fmaD`, entered in the first pass**, without hypothesis -/
-theorem arm26_fma' (m : RoundingMode) (f : UInt32) (s1 s2 s3 : Bool) (c1 c2 : Nat) (e1 e2 : Int)
-    (C3 : U128) (C4 : U256) (q3n q4n : Nat) (e3 : Int) (q3 q4 e3w e4w delta : Int32) (b1 b2 b3 b4 : Bool)
-    (hq3w : q3.toInt = q3n) (hq4w : q4.toInt = q4n)
-    (hq3 : 1 ≤ q3n) (hq3' : q3n ≤ 34) (hc3lo : 0 < v128 C3) (hc3 : v128 C3 < 10 ^ q3n)
-    (hq4 : 1 ≤ q4n) (hq4' : q4n ≤ 68) (hprod : v256 C4 = c1 * c2) (hc4lo : 0 < c1 * c2) (hc4 : c1 * c2 < 10 ^ q4n)
-    (he3 : -6176 ≤ e3) (he3' : e3 ≤ 6111) (he4 : -12352 ≤ e1 + e2) (he4' : e1 + e2 ≤ 12222)
-    (hew3 : e3w.toInt = e3) (hew : e4w.toInt = e1 + e2) (hdelta : delta.toInt = q3n + e3 - q4n - (e1 + e2))
-    (hd0 : 0 ≤ delta.toInt) (hd1 : delta.toInt ≤ 1) (hsign : (s1 != s2) ≠ s3) :
-    ∃ lt gt ilt igt : Bool,
-      arm26K q3 q4 e3w e4w delta 34 (sgnW s3) (sgnW (s1 != s2)) C3 C4 m b1 b2 b3 b4 f =
-        .ok (ofBits (encode (fmaD (modeOf m) false (.fin s1 c1 e1) (.fin s2 c2 e2) (.fin s3 (v128 C3) e3)).1), lt, gt, ilt, igt,
-             f ||| UInt32.ofNat (fmaD (modeOf m) false (.fin s1 c1 e1) (.fin s2 c2 e2) (.fin s3 (v128 C3) e3)).2) :=
-  arm26_fma aarSpec m f s1 s2 s3 c1 c2 e1 e2 C3 C4 q3n q4n e3 q3 q4 e3w e4w delta b1 b2 b3 b4 hq3w hq4w hq3 hq3' hc3lo hc3 hq4 hq4' hprod hc4lo hc4 he3 he3' he4 he4' hew3 hew hdelta hd0 hd1 hsign
-
-/-- **the cancellation arm of Cases (2)–(6) against `fmaD`, entered after the operand swap**, without hypothesis -/
-theorem arm26_fma_swapped' (m : RoundingMode) (f : UInt32) (s1 s2 s3 : Bool) (c1 c2 c3 : Nat) (e1 e2 : Int)
-    (C3 : U128) (C4 : U256) (q3n q4n : Nat) (e3 : Int) (q3 q4 e3w e4w delta : Int32) (b1 b2 b3 b4 : Bool)
-    (hq3w : q3.toInt = q3n) (hq4w : q4.toInt = q4n)
-    (hq3 : 1 ≤ q3n) (hq3' : q3n ≤ 34) (hprod : v128 C3 = c1 * c2) (hc3lo : 0 < c1 * c2) (hc3 : c1 * c2 < 10 ^ q3n)
-    (hq4 : 1 ≤ q4n) (hq4' : q4n ≤ 34) (hz : v256 C4 = c3) (hc4lo : 0 < c3) (hc4 : c3 < 10 ^ q4n)
-    (he3 : -6176 ≤ e3) (he3' : e3 ≤ 6111) (he4 : -12352 ≤ e1 + e2) (he4' : e1 + e2 ≤ 12222)
-    (hew3 : e3w.toInt = e1 + e2) (hew : e4w.toInt = e3) (hdelta : delta.toInt = q3n + (e1 + e2) - q4n - e3)
-    (hd0 : 0 ≤ delta.toInt) (hd1 : delta.toInt ≤ 1) (hsign : (s1 != s2) ≠ s3) :
-    ∃ lt gt ilt igt : Bool,
-      arm26K q3 q4 e3w e4w delta 34 (sgnW (s1 != s2)) (sgnW s3) C3 C4 m b1 b2 b3 b4 f =
-        .ok (ofBits (encode (fmaD (modeOf m) false (.fin s1 c1 e1) (.fin s2 c2 e2) (.fin s3 c3 e3)).1), lt, gt, ilt, igt,
-             f ||| UInt32.ofNat (fmaD (modeOf m) false (.fin s1 c1 e1) (.fin s2 c2 e2) (.fin s3 c3 e3)).2) :=
-  arm26_fma_swapped aarSpec m f s1 s2 s3 c1 c2 c3 e1 e2 C3 C4 q3n q4n e3 q3 q4 e3w e4w delta b1 b2 b3 b4 hq3w hq4w hq3 hq3' hprod hc3lo hc3 hq4 hq4' hz hc4lo hc4 he3 he3' he4 he4' hew3 hew hdelta hd0 hd1 hsign
-
-end Dec.C02GenFmaWrapClosed
+end Dec.C02GenFmaWrap
